@@ -48,10 +48,13 @@ VARIABLES
   fsmc,      \* <<node, inc>> -> largest operation index the state machine instance contains
   taken,     \* set of <<index, term, hash, size>> snapshots produced by a node's own takeSnapshot
   sopen,     \* node -> label index of the snapshot it last opened for reading
+  isidx,     \* node -> label index carried by the InstallSnapshot request it is handling
+  lastae,    \* node -> the AppendEntries call it handled last while quiescent, until its next status
+  s7,        \* set of nodes on which the signature of known finding S7 occurred
   bad        \* set of violation records
 
 vars == <<l, meta, dur, pstate, maxterm, votes, applied, cursor, leaders, lfirst, committed,
-          reqs, hpre, stat, inv, wdone, rdone, retd, dead, mtrack, mwait, finals, healed, s5, hl, fsmc, taken, sopen, bad>>
+          reqs, hpre, stat, inv, wdone, rdone, retd, dead, mtrack, mwait, finals, healed, s5, hl, fsmc, taken, sopen, isidx, lastae, s7, bad>>
 
 -----------------------------------------------------------------------------
 Ev == Trace[l]
@@ -108,9 +111,13 @@ ReplayLog == [base |-> Ev.base,
               bterm |-> Log(Ev.node).bterm,    \* the interface does not expose the base term
               ents |-> Ents(Ev.entries)]
 
+\* a node constructed over prepared storage (handler-domain scenarios): its first replay is
+\* where the reconstruction starts
+AdoptReplay == Is("log_replay") /\ ~Has("err") /\ Ev.node \notin DOMAIN dur
 NextDur ==
   IF Is("scenario") THEN <<>>
   ELSE IF IsLogEv THEN Put(dur, Ev.node, LogAfter(Log(Ev.node)))
+  ELSE IF AdoptReplay THEN Put(dur, Ev.node, [ReplayLog EXCEPT !.bterm = IF Len(Ev.entries) = 0 /\ Has("lastt") THEN Ev.lastt ELSE 0])
   ELSE dur
 
 -----------------------------------------------------------------------------
@@ -245,6 +252,25 @@ C06_Handler ==
        THEN {V("C06", "RemovedNonConflicting", <<Ev.id>>)} ELSE {})
     \cup
     (IF ~keptPrefix THEN {V("C06", "RemovedCommitted", <<Ev.id>>)} ELSE {})
+
+\* ... and never moves the commit index backwards or past entries verified to match the sender:
+\* judged at the node's next (quiescent) status report after a call handled while quiescent
+ManualAE == Is("handled") /\ Ev.kind = "ae" /\ ~Has("err") /\ Ev.id \in DOMAIN hpre /\ Ev.id \in DOMAIN reqs /\ hpre[Ev.id].manual
+NextLastae ==
+  IF Is("scenario") THEN <<>>
+  ELSE IF ManualAE THEN Put(lastae, Ev.to, [id |-> Ev.id, ok |-> Ev.ok, pre |-> hpre[Ev.id].commit, inc |-> Ev.inc,
+                                           top |-> AEReq.prev + Len(AEReq.entries), lc |-> AEReq.commit])
+  ELSE IF (Is("status") \/ Is("crash") \/ Is("restart") \/ Is("stop")) /\ Ev.node \in DOMAIN lastae THEN Del(lastae, Ev.node)
+  ELSE IF Is("deliver") /\ Ev.to \in DOMAIN lastae THEN Del(lastae, Ev.to)      \* another call intervened
+  ELSE lastae
+
+C06_Commit ==
+  IF ~(Is("status") /\ Ev.node \in DOMAIN lastae /\ lastae[Ev.node].inc = Ev.inc /\ Ev.role = 1) THEN {} ELSE
+    LET a == lastae[Ev.node]
+        bound == IF a.ok THEN Max(a.pre, Min(a.lc, a.top)) ELSE a.pre IN
+    (IF Ev.commit < a.pre THEN {V("C06", "CommitMovedBackwards", <<a.id, a.pre, Ev.commit>>)} ELSE {})
+    \cup
+    (IF Ev.commit > bound THEN {V("C06", "CommitPastVerifiedEntries", <<a.id, a.ok, a.pre, a.lc, a.top, Ev.commit>>)} ELSE {})
 
 -----------------------------------------------------------------------------
 (* C08 -- term and vote monotone and durable *)
@@ -401,7 +427,7 @@ C04_AckDurable ==
 
 \* the log a restarted node replays is the reconstruction (otherwise C12/C14 or the recorder is off)
 C04_Replay ==
-  IF ~(Is("log_replay") /\ ~Has("err")) THEN {} ELSE
+  IF ~(Is("log_replay") /\ ~Has("err") /\ Ev.node \in DOMAIN dur) THEN {} ELSE
     LET lg == Log(Ev.node) IN
     IF lg.base # Ev.base \/ lg.ents # Ents(Ev.entries)
       THEN {V("C14", "ReplayedLogDiffers", <<Ev.node, lg.base, Len(lg.ents), Ev.base, Len(Ev.entries)>>)} ELSE {}
@@ -585,6 +611,13 @@ NextFsmc ==
 
 CfgIdxUpTo(k) == {j \in DOMAIN committed : committed[j].k = 2 /\ j <= k}
 
+\* Signature of known finding S7: an installation publishes a file that was created for one
+\* snapshot label while the request that completes it carries another (the handler appends a
+\* chunk of an older snapshot to the partial file of a newer one when the offsets match, and
+\* takes the boundary from the request).  The repository's TestInstallSnapshotSuccess relies on
+\* exactly this, so it cannot be repaired without editing that test.
+KF_S7 == InstSnapshot /\ Ev.node \in DOMAIN isidx /\ isidx[Ev.node] # Ev.index
+
 C10_Snapshot ==
   IF ~(Is("snap_close") /\ ~Has("err")) THEN {} ELSE
     (IF ~Ev.ok THEN {V("C10", "SnapshotNotASnapshot", <<Ev.node, Ev.index, Ev.size>>)} ELSE {})
@@ -645,7 +678,7 @@ Recorder ==   \* recorder / reconstruction sanity: reported separately, never as
 
 NewBad ==
   LET all == C01_Apply \cup C02_Election \cup C07_CommitAgree \cup C07_Completeness \cup C07_NoOverwrite
-             \cup C06_LogMatching \cup C06_Handler
+             \cup C06_LogMatching \cup C06_Handler \cup C06_Commit
              \cup C08_TermMonotone \cup C08_OneVote \cup C08_VoteUpToDate \cup C08_PrevoteInert \cup C08_Reload
              \cup C03_FutureTruth \cup C03_AtMostOnce \cup C03_RealTime \cup C03_NoInvention
              \cup C04_AckDurable \cup C04_Replay \cup C05_Reads \cup C14_Abort \cup C18_Panic \cup Recorder
@@ -657,7 +690,12 @@ NewBad ==
                       /\ b.c \in {"SMSafety", "LeaderCompleteness", "FutureWrongPosition", "FutureWrongResult", "AppliedNotOnMajorityDisk",
                                   "AckNotOnMajorityDisk", "CommittedTruncated", "StaleRead", "ReadWentBackwards", "ConfigurationsDiverge",
                                   "CommitWithoutVoterMajority", "RealTimeOrder", "AppliedTwice", "LeaderWithoutVoterMajority", "ElectionSafety"}
-                   THEN [b EXCEPT !.kf = "S5"] ELSE b : b \in all}
+                   THEN [b EXCEPT !.kf = "S5"]
+                 ELSE IF b.p \in {"C10", "C11", "C01"} /\ Has("node") /\ (Ev.node \in s7 \/ KF_S7)
+                      /\ b.c \in {"InstalledSnapshotNotFromSender", "SnapshotNotExact", "RestoredStateNotExact", "OperationAppliedTwice",
+                                  "OperationSkipped", "IndexMovedBackwards", "SnapshotNotASnapshot", "InstalledOlderThanApplied", "ApplyOrder"}
+                   THEN [b EXCEPT !.kf = "S7"]
+                 ELSE b : b \in all}
   IN {b \in tagged : b.p \in Props \/ b.p \in {"X", "W"}}
 
 Report(S) == \A b \in S : PrintT("MONITOR-BAD|" \o b.p \o "|" \o b.c \o "|" \o b.sc \o "|" \o ToString(b.line)
@@ -668,7 +706,7 @@ Init ==
   /\ dur = <<>> /\ pstate = <<>> /\ maxterm = <<>> /\ votes = {} /\ applied = <<>> /\ cursor = <<>>
   /\ leaders = <<>> /\ lfirst = {} /\ committed = <<>> /\ reqs = <<>> /\ hpre = <<>> /\ stat = <<>>
   /\ inv = <<>> /\ wdone = {} /\ rdone = {} /\ retd = {} /\ dead = {} /\ mtrack = <<>> /\ mwait = <<>>
-  /\ finals = <<>> /\ healed = FALSE /\ s5 = FALSE /\ hl = NoHealthy /\ fsmc = <<>> /\ taken = {} /\ sopen = <<>> /\ bad = {}
+  /\ finals = <<>> /\ healed = FALSE /\ s5 = FALSE /\ hl = NoHealthy /\ fsmc = <<>> /\ taken = {} /\ sopen = <<>> /\ isidx = <<>> /\ lastae = <<>> /\ s7 = {} /\ bad = {}
 
 Next ==
   /\ l <= Len(Trace)
@@ -701,8 +739,12 @@ Next ==
   /\ s5' = (IF Is("scenario") THEN FALSE ELSE s5 \/ KF_S5)
   /\ hl' = NextHl
   /\ fsmc' = NextFsmc
-  /\ taken' = (IF Is("scenario") THEN {} ELSE IF OwnSnapshot THEN taken \cup {<<Ev.index, Ev.term, Ev.h, Ev.size>>} ELSE taken)
+  /\ taken' = (IF Is("scenario") THEN {} ELSE IF OwnSnapshot \/ Is("canon") THEN taken \cup {<<Ev.index, Ev.term, Ev.h, Ev.size>>} ELSE taken)
   /\ sopen' = (IF Is("scenario") THEN <<>> ELSE IF Is("snap_open") /\ ~Has("err") THEN Put(sopen, Ev.node, Ev.index) ELSE sopen)
+  /\ isidx' = (IF Is("scenario") THEN <<>>
+              ELSE IF Is("deliver") /\ Ev.kind = "is" /\ Ev.id \in DOMAIN reqs THEN Put(isidx, Ev.to, reqs[Ev.id].index) ELSE isidx)
+  /\ s7' = (IF Is("scenario") THEN {} ELSE IF KF_S7 THEN s7 \cup {Ev.node} ELSE s7)
+  /\ lastae' = NextLastae
 
 Spec == Init /\ [][Next]_vars
 
